@@ -190,6 +190,13 @@ def reject_menu():
         for rs in (["a", 1.0], [0.1, None], [[0.1], 0.2], ["0.1"]):
             M.append(("%s rs list %r" % (kind, rs), kind, dict(fixed, rs=rs), True))
     M.append(("PMux rs list good", "PMux", dict(rs=[0.1, 0.2]), False))
+    for rs in (["0.1", "0.2"], [0.1, "2e-1"], [0.1, "nan"]):
+        M.append(("PMux rs list numeric-strings %r" % (rs,), "PMux", dict(rs=rs), True))
+    # tables handed to LinReg through the deprecated iq= keyword (inner key "iq") are validated like ig= tables
+    M.append(("LinReg iq-table negative", "LinReg", dict(vo=3.3, iq={"vi": [5.0], "io": [0.01, 0.1, 0.5], "iq": [[1e-3, -1e-3, 2e-3]]}), True))
+    M.append(("LinReg iq-table io-decreasing", "LinReg", dict(vo=3.3, iq={"vi": [5.0], "io": [0.01, 0.5, 0.1], "iq": [[1e-3, 1e-3, 2e-3]]}), True))
+    M.append(("LinReg iq-table rows-mismatch", "LinReg", dict(vo=3.3, iq={"vi": [2.0, 6.0], "io": [0.01, 0.1, 0.5], "iq": [[1e-3, 1e-3, 2e-3]]}), True))
+    M.append(("LinReg iq-table good", "LinReg", dict(vo=3.3, iq={"vi": [5.0], "io": [0.01, 0.1, 0.5], "iq": [[1e-3, 1.5e-3, 2e-3]]}), False))
     M.append(("Rectifier rs str", "Rectifier", dict(vdrop=0.0, rs="0.1"), True))
     M.append(("Rectifier rs numeric-list (advertised: float | list)", "Rectifier", dict(vdrop=0.0, rs=[0.1, 0.2]), None))
     return M
